@@ -20,16 +20,20 @@ LENCHG = {'filter', 'filter_map', 'skip', 'skip_while', 'take_while', 'step_by',
 ITER_PASS = {'map', 'cloned', 'copied', 'collect', 'into_iter', 'iter', 'iter_mut', 'peekable', 'by_ref', 'inspect', 'from_iter',
              'clone', 'deref', 'deref_mut', 'as_slice', 'to_vec', 'into_boxed_slice', 'enumerate', 'unwrap', 'expect', 'branch',
              'next', 'as_ref', 'records', 'headers', 'byte_records', 'into_records', 'zip', 'trim', 'to_lowercase', 'to_string'} | LENCHG
-NAME_INDEX_MAP = re.compile(r'std::collections::(HashMap|BTreeMap)<(std::string::String|&(\'\w+ )?str), usize')
+NAME_INDEX_MAP = re.compile(r'std::collections::(HashMap|BTreeMap)<((std::string::String|&(\'\w+ )?str), usize|usize, (std::string::String|&(\'\w+ )?str))')
 
 
-def index_stability(prog, rep, rule, fns=None):
+def index_stability(prog, rep, rule, only_prefix=None, skip_prefix=None):
     """R18a / R7d: in every function that builds a name -> usize map, no enumerate() is applied to a sequence that went
     through a length-changing step. Returns the number of enumerate sites examined."""
     n = 0
     cands = []
     for fn in prog.product_fns():
         owner = prog.owner_of(fn)
+        if only_prefix and not owner.name.startswith(only_prefix):
+            continue
+        if skip_prefix and owner.name.startswith(skip_prefix):
+            continue
         grp_has_map = any(NAME_INDEX_MAP.search(t) for t in owner.ty.values()) or any(NAME_INDEX_MAP.search(t) for t in fn.ty.values())
         if not grp_has_map:
             continue
@@ -65,7 +69,7 @@ def run(prog, rep, tier='quick', config='default'):
     rep.anchor('module peripheral::broker::questrade', qt)
     if not excel or not qt:
         return
-    n = index_stability(prog, rep, 'R18a')
+    n = index_stability(prog, rep, 'R18a', skip_prefix='portfolio::io::tx_csv::')
     hdr = [f for f in excel if any(NAME_INDEX_MAP.search(t) for t in f.ty.values()) and
            any(c.short == 'enumerate' for c in f.calls + [c for g in prog.closures_of(f) for c in g.calls])]
     rep.anchor('a function in peripheral::excel that builds the header-name -> index map with enumerate()', hdr)
